@@ -8,7 +8,7 @@ ops
               by the model's copy of the standard parser on that URL, the split / decoded elements / decoded query
               pairs / decoded anchor / the URL minus scheme and authority / the wanted (scheme, host, port)
 * `quote`, `quote_plus`, `urlencode`                      the encoders alone
-* `urlsplit`, `parse_qsl`, `unquote`, `unquote_plus`      the standard parser alone (on arbitrary text) -/
+* `urlsplit`, `parse_qsl`, `unquote`, `unquote_plus`, `bracket` (`_check_bracketed_host`)   the standard parser alone -/
 open Pyr Pyr.Trav Pyr.Pct Pyr.Url Lean
 
 def jt (t : Text) : Json := toJson (t.map Char.toNat)
@@ -204,6 +204,7 @@ def main : IO Unit := jsonDriver fun j => do
     pure (Json.mkObj [("r", match parseQsl (← fieldT j "s") with
       | some ps => pairsJson ps
       | none => Json.null)])
+  | "bracket" => do pure (Json.mkObj [("r", toJson (checkBracketedHost (← fieldT j "s")))])
   | "unquote" => do pure (Json.mkObj [("r", jot (unquote (← fieldT j "s")))])
   | "unquote_plus" => do pure (Json.mkObj [("r", jot (unquotePlus (← fieldT j "s")))])
   | _ => throw "unknown op"
